@@ -343,8 +343,20 @@ def flatten_body(c):
     vseed = c.seed()
     shapes = [tuple(s[1]) if s[0] == "a" else () for s in lstructs]
     vals, _ = values.generic(vseed, shapes, -1.5, 1.5) if shapes else ([], 0)
-    v0 = build(struct, lambda i, s: float(vals[i]) if s[0] == "f" else onp.array(vals[i]), [0])
-    sample = {"struct": struct, "vseed": vseed}
+    layouts = [c.choice(["C", "F", "T"]) for _ in lstructs]  # memory layout of rank-2 leaves: C order, Fortran copy, transposed view
+
+    def leaf(i, s):
+        if s[0] == "f":
+            return float(vals[i])
+        a = onp.array(vals[i])
+        if a.ndim == 2 and layouts[i] == "F":
+            return onp.asfortranarray(a)
+        if a.ndim == 2 and layouts[i] == "T":
+            return onp.ascontiguousarray(a.T).T  # same values and shape, Fortran-contiguous view
+        return a
+
+    v0 = build(struct, leaf, [0])
+    sample = {"struct": struct, "vseed": vseed, "layouts": layouts}
     bucket = lambda k: f"C12|flatten|{k}"
 
     def sorted_leaves(v):
